@@ -253,6 +253,42 @@ def JsVal.sameProto : JsVal → JsVal → Bool
   | .bool a, .bool b => a == b
   | _, _ => false
 
+/-! ## The route body: declarations and which URL parts it reads -/
+
+/-- identifiers the emitted route handler declares with `const` directly in its `try` block
+(`generateRouteEntry`): header validation, path extraction, body / query parsing, context, call.
+With path parameters the URL is parsed once, by the path block; the query block re-uses it. -/
+def routeConsts (hasHeaders hasPath hasQuery bodyVerb : Bool) : List String :=
+  (if hasHeaders then ["headerConfigs", "headerViolations"] else []) ++
+  ["pathParams"] ++ (if hasPath then ["url", "pathSegments"] else []) ++
+  (if bodyVerb then ["body"]
+   else if hasQuery then (if hasPath then [] else ["url"]) ++ ["params", "body"]
+   else ["body"]) ++
+  ["ctx", "result"]
+
+/-- the same before `fix: ts-server: do not declare const url twice …` (41e5e05): the query block
+declared `url` unconditionally. Kept as the regression model. -/
+def routeConstsBeforeFix (hasHeaders hasPath hasQuery bodyVerb : Bool) : List String :=
+  (if hasHeaders then ["headerConfigs", "headerViolations"] else []) ++
+  ["pathParams"] ++ (if hasPath then ["url", "pathSegments"] else []) ++
+  (if bodyVerb then ["body"]
+   else if hasQuery then ["url", "params", "body"]
+   else ["body"]) ++
+  ["ctx", "result"]
+
+/-- the emitted TS route reads query-annotated fields from the URL only for GET / DELETE; for
+POST / PUT / PATCH it takes them from the JSON body and never looks at `url.searchParams`
+(`generateRouteEntry`: `if cfg.hasBody { generateBodyParsing } else { generateQueryParamParsing }`). -/
+def tsRouteQueryField (bodyVerb : Bool) (k : QKind) (name search : Bytes) (fromBody : Option JsVal) : Option JsVal :=
+  if bodyVerb then fromBody else some (tsQueryField k (tsQueryGet name search))
+
+/-- the emitted Go middleware binds query parameters for every verb, after the body: a parameter
+present in the URL overwrites the body's value, an absent one leaves it. -/
+def goRouteQueryField (k : QKind) (name search : Bytes) (fromBody : Option JsVal) : Option JsVal :=
+  match queryGet name (parseQuery search) with
+  | some v => some (specField k (some v))
+  | none => fromBody
+
 /-! ## Header option helpers (`tsclientgen.generateHeaderMerging`, `clientgen` typed options) -/
 
 /-- header names a TS client option property writes: every declared header whose property name
